@@ -116,3 +116,10 @@ func vhLE16(v uint16) []byte { b := make([]byte, 2); binary.LittleEndian.PutUint
 
 // vhRandSeed returns a PRNG for an explicit seed (derived from VERIF_SEED by the caller).
 func vhRandSeed(seed int64) *rand.Rand { return rand.New(rand.NewSource(seed)) }
+
+// Flush writes buffered observations to the file (harnesses whose subject may crash the test binary).
+func (o *vhOut) Flush() {
+	o.mu.Lock()
+	o.w.Flush()
+	o.mu.Unlock()
+}
